@@ -15,6 +15,9 @@ package main
 //     Lq La Ls Le  from now on every exchange fails: query lost / answer lost / smux.ErrTimeout / other error
 //     H     the path heals; the op then waits (≤ plWait) until nothing is outstanding: parked Writes have
 //           returned, both out-queues are empty.  An implicit H ends every history.
+//     P<k>  (during an outage) the outage goes on until the loop has made k more turns, each of which fails (a turn
+//           = five lost exchanges, one for Le); only the loop is sending.  A FINITE outage, however long, must not make
+//           the client give the tunnel up: if the client has closed itself the history ends with result CLOSED.
 //
 // While the path is down a client Write either gives up after its five attempts (its fragment stays in
 // the out-queue, n counts it: w<n>e) or parks behind such a leftover (wp); a server Write parks (Wp).
@@ -112,6 +115,18 @@ func (t *plComm) SendAndReceive(m *dns.Msg, timeout *time.Duration) (*dns.Msg, t
 
 type plComp struct{}
 
+// plTurns: k of a token P<k>, 1 ≤ k ≤ 60; 0 otherwise
+func plTurns(t string) int {
+	if len(t) < 2 || t[0] != 'P' {
+		return 0
+	}
+	n, err := strconv.Atoi(t[1:])
+	if err != nil || n < 1 || n > 60 || strconv.Itoa(n) != t[1:] {
+		return 0
+	}
+	return n
+}
+
 func init() { register("dnspoll", plComp{}) }
 
 func plParse(op string) (mtu int, evs []string, ok bool) {
@@ -127,6 +142,7 @@ func plParse(op string) (mtu int, evs []string, ok bool) {
 	for _, t := range toks[1:] {
 		switch {
 		case t == "H" || t == "Lq" || t == "La" || t == "Ls" || t == "Le":
+		case plTurns(t) > 0:
 		case len(t) > 1 && strings.ContainsRune("wWrR", rune(t[0])):
 			n, err := strconv.Atoi(t[1:])
 			if err != nil || n < 0 || n > 5000 || strconv.Itoa(n) != t[1:] {
@@ -186,7 +202,15 @@ func (plComp) Exec(op string) (result string, monitor string, class string, nont
 		flags        = map[string]bool{}
 		hung         bool
 		lossy        bool
+		selfClosed   bool
+		kind         byte
+		lostSince    int // exchanges counted when the current outage began
 	)
+	exchanges := func() int {
+		comm.mu.Lock()
+		defer comm.mu.Unlock()
+		return comm.data
+	}
 	fail := func(format string, a ...interface{}) {
 		if monitor == "" {
 			monitor = fmt.Sprintf(format, a...)
@@ -283,6 +307,10 @@ func (plComp) Exec(op string) (result string, monitor string, class string, nont
 			if pendU == nil && pendD == nil && outLen(cout) == 0 && outLen(sout) == 0 {
 				return tu + td
 			}
+			if client.Closed() {
+				selfClosed = true
+				return tu + td
+			}
 			if time.Now().After(deadline) {
 				hung = true
 				return tu + td
@@ -293,9 +321,18 @@ func (plComp) Exec(op string) (result string, monitor string, class string, nont
 	rbuf := make([]byte, 8192)
 
 	heal := func() string {
+		before := exchanges()
 		comm.setMode("ok")
+		wasLossy := lossy
 		lossy = false
-		return "H" + rest()
+		t := "H" + rest()
+		if wasLossy && !selfClosed && !hung {
+			// one turn of the loop over the healthy path (it resets the loop's error bookkeeping) before the history goes on
+			for dl := time.Now().Add(3 * time.Second); exchanges() == before && !client.Closed() && time.Now().Before(dl); {
+				time.Sleep(200 * time.Microsecond)
+			}
+		}
+		return t
 	}
 	for i, ev := range evs {
 		t := ""
@@ -318,9 +355,36 @@ func (plComp) Exec(op string) (result string, monitor string, class string, nont
 					break
 				}
 			}
+			if !lossy {
+				lostSince = before
+			}
 			lossy = true
+			kind = ev[1]
 			flags["L"+ev[1:]] = true
 			t = "L"
+		case 'P':
+			if !lossy {
+				t = "P-"
+				break
+			}
+			per := 5 // SendAndReceive's tries: a turn that meets time-outs only
+			if kind == 'e' {
+				per = 1
+			}
+			want := exchanges() + per*arg
+			// generous: a turn every ≤ 0.3 s on the pinned tree, ≤ 0.3 s + 0.2 s per counted failure with back-off
+			for dl := time.Now().Add(time.Duration(arg)*2*time.Second + 5*time.Second); exchanges() < want && !client.Closed() && time.Now().Before(dl); {
+				time.Sleep(500 * time.Microsecond)
+			}
+			if client.Closed() {
+				selfClosed = true
+			} else if exchanges() < want {
+				hung = true
+			}
+			if arg >= 7 {
+				flags["longoutage"] = true
+			}
+			t = "P"
 		case 'H':
 			t = heal()
 		case 'w':
@@ -399,13 +463,34 @@ func (plComp) Exec(op string) (result string, monitor string, class string, nont
 			t = fmt.Sprintf("%s%d", ev[:1], n)
 		}
 		toks = append(toks, t)
+		if selfClosed || (lossy && client.Closed()) {
+			selfClosed = true
+			break
+		}
 		if hung {
 			break
 		}
 		check(fmt.Sprintf("after event %d (%s)", i+1, ev))
 	}
-	if !hung {
+	if !hung && !selfClosed {
 		toks = append(toks, "|"+heal())
+	}
+	if selfClosed {
+		co, _ := cout.VerifState()
+		so, _ := sout.VerifState()
+		buf, _, _ := sin.VerifState()
+		lost := exchanges() - lostSince
+		comm.mu.Lock()
+		comm.failAll = true
+		comm.mu.Unlock()
+		n, werr := client.Write([]byte{0})
+		cout.VerifReleaseWaiters()
+		sout.VerifReleaseWaiters()
+		return "CLOSED", fmt.Sprintf("the client closed the tunnel by itself after a FINITE outage of the DNS path (%d exchanges lost since it began, history so far: %s): "+
+			"%d fragment(s) that the client's Writes accepted are still queued and will never be retransmitted, the server end has %d of the %d bytes "+
+			"the client's Writes accepted (Σ n); %d fragment(s) of the server's Writes are queued and will never be fetched (server Write still blocked: %v); "+
+			"a further client Write returns (%d, %v) — what was accepted is not delivered although the path stops losing",
+			lost, strings.Join(toks, " "), len(co), len(readU)+len(buf), posU, len(so), pendD != nil, n, werr), "selfclosed", false
 	}
 	if hung {
 		waited := plWait
@@ -472,6 +557,22 @@ func (plComp) Gen(r *Rand, tier string, emit func(op string)) {
 	emit("mtu=2 Lq W3 H R99 Ls W1 Le H W2")
 	// two outages in one history
 	emit("mtu=2 w3 Lq w1 H w2 Ls w2 w2 H r99 w1")
+	// LONG finite outages: the loop makes 9 failing turns in a row (45 lost exchanges; 9 for Le) while a fragment that a
+	// Write accepted is queued / a Write is parked / nothing is queued at all; 2 turns; two outages of 4 turns with a healed
+	// turn in between (they must not add up); the kind of the outage changes half-way
+	for _, kind := range []string{"q", "a", "s", "e"} {
+		emit(fmt.Sprintf("mtu=1 L%s w1 P9", kind))
+	}
+	emit("mtu=1 Lq w1 P9 H w1 r99")
+	emit("mtu=2 w2 Lq w3 w1 P9 H r99 w1")
+	emit("mtu=2 Lq W3 P9 H R99")
+	emit("mtu=1 Lq w1 P2 H r9")
+	emit("mtu=1 Lq w1 P4 H La w1 P4 H r9")
+	emit("mtu=1 Lq w1 P4 La P4 Ls P4 H r9")
+	if tier == "thorough" {
+		emit("mtu=3 w2 La w7 P20 H w4 r99")
+		emit("mtu=1 Le w1 P30 H w1 r99")
+	}
 	n := 6
 	if tier == "thorough" {
 		n = 40
@@ -494,7 +595,9 @@ func (plComp) Gen(r *Rand, tier string, emit func(op string)) {
 				}
 				lossy = !lossy
 			case 6:
-				if lossy {
+				if lossy && r.Intn(3) == 0 {
+					evs = append(evs, "P"+strconv.Itoa(1+r.Intn(8)))
+				} else if lossy {
 					evs = append(evs, "L"+r.Pick([]string{"q", "a", "s", "e"}))
 				} else {
 					evs = append(evs, "r"+strconv.Itoa([]int{1, mtu, 5000}[r.Intn(3)]))
